@@ -132,6 +132,9 @@ mutant("c08_censoring_decided_per_individual", "C08", "variables/distributions.p
 mutant("c08_source_shift_scaled_by_first_event_shape", "C08", "variables/distributions.py",
        "        return nu * torch.exp(-(xi + (1 / rho) * (survival_shifts)))",
        "        return nu * torch.exp(-(xi + (1 / rho[..., :1]) * (survival_shifts)))")
+mutant("c08_age_zero_taken_for_padding", "C08", "models/mcmc_saem_compatible.py",
+       "                dataset.timepoints, dataset.mask.to(torch.bool).any(dim=LVL_FT)\n",
+       "                dataset.timepoints, dataset.mask.to(torch.bool).any(dim=LVL_FT) & (dataset.timepoints != 0)\n")
 # ----------------------------------------------------------------------------- C10
 mutant("c10_velocity_not_compensated", "C10", "models/riemanian_manifold.py",
        "        state[\"log_v0\"] = state[\"log_v0\"] + mean_xi", "        pass")
